@@ -681,10 +681,15 @@ int c12_batch(const Args &a) {
             st.viol_replay[key] = path;
             size_t nops = 0;
             for (auto &tp : c.plan.tasks) nops += tp.ops.size();
-            char detail[256];
+            char detail[384];
+            std::string others;
+            for (size_t t2 = 0; t2 < c.plan.tasks.size(); t2++)
+                if ((int)t2 != mm.task)
+                    for (auto &op2 : c.plan.tasks[t2].ops)
+                        if (op2.fn >= 0 && op2.fn < FN_COUNT && others.find(g_fn[op2.fn].name) == std::string::npos) others += (others.empty() ? "" : ", ") + std::string(g_fn[op2.fn].name);
             if (fn >= 0)
-                snprintf(detail, sizeof detail, "%s gives a different result when another thread's call runs inside it (%zu tasks, %zu ops, %zu switches after minimisation)",
-                         g_fn[fn].name, c.plan.tasks.size(), nops, c.sched.sw.size());
+                snprintf(detail, sizeof detail, "%s gives a different result when other threads' calls (%s) run inside or next to it than when run alone (%zu tasks, %zu ops, %zu switches after minimisation)",
+                         g_fn[fn].name, others.c_str(), c.plan.tasks.size(), nops, c.sched.sw.size());
             else
                 snprintf(detail, sizeof detail, "a call returns with different process-wide settings (umask / locale / environment / rounding mode / cwd) than when run alone: another thread's library call changed them in between (%zu tasks, %zu ops, %zu switches after minimisation)",
                          c.plan.tasks.size(), nops, c.sched.sw.size());
